@@ -84,7 +84,9 @@ FormOK(f, c) == /\ IsCoef(c)
 (*   argname / argref / argparam  name=, ref=, param= handed over as keyword arguments of       *)
 (*          from_string instead of being written in the text (the text wins)                    *)
 NoArgParam == [some |-> FALSE]
-DefaultCfg == [spc |-> "normal", eol |-> "lf", gmode |-> "default", ctoks |-> "default", msfk |-> FALSE,
+(*   chk    how the constructor's default checks are switched off where they must be: checks=() or     *)
+(*          dont_check={...}                                                                         *)
+DefaultCfg == [chk |-> "checks", spc |-> "normal", eol |-> "lf", gmode |-> "default", ctoks |-> "default", msfk |-> FALSE,
                dq |-> FALSE, argname |-> "", argref |-> "", argparam |-> NoArgParam]
 Wide == cfgv.spc = "wide"
 Tight == cfgv.spc = "tight"
@@ -112,8 +114,10 @@ UnitExprs == { [expr |-> "/second", dim |-> "1/s"], [expr |-> "/molar/second", d
 IntPart(v) == [i \in 1..(v.e + 1) |-> IF i <= Len(v.digs) THEN v.digs[i] ELSE 0]
 FracPart(v) == IF Len(v.digs) > v.e + 1 THEN SubSeq(v.digs, v.e + 2, Len(v.digs)) ELSE <<>>
 ParamStyleOK(v, st) ==
-    /\ IsNorm(v) /\ v.digs # <<>>
-    /\ st \in {"sci", "sciP", "sciE", "fix", "int", "pow10"}
+    /\ IsNorm(v)
+    \* (exactly zero is written "0" or "0.0")
+    /\ ((v.digs = <<>>) <=> (st \in {"zero", "zerof"}))
+    /\ st \in {"sci", "sciP", "sciE", "fix", "int", "pow10", "zero", "zerof"}
     /\ (st = "int" => (v.e >= 0 /\ Len(v.digs) <= v.e + 1 /\ v.e <= 8))
     /\ (st = "fix" => (v.e >= -6 /\ v.e <= 15))
     /\ (st = "sciP" => (v.e >= -99 /\ v.e <= 99))
@@ -121,6 +125,7 @@ ParamStyleOK(v, st) ==
 Mantissa(v) == ToString(v.digs[1]) \o (IF Len(v.digs) > 1 THEN "." \o DigStr(Tail(v.digs)) ELSE "")
 Abs2(k) == IF k < 0 THEN -k ELSE k
 ParamText(v, st) ==
+    IF st = "zero" THEN "0" ELSE IF st = "zerof" THEN "0.0" ELSE
     (IF v.neg THEN "-" ELSE "") \o
     (IF st = "sci" THEN Mantissa(v) \o "e" \o ToString(v.e)
      ELSE IF st = "sciE" THEN Mantissa(v) \o "E" \o ToString(v.e)
@@ -166,7 +171,7 @@ Configure(c) ==
     /\ Fresh /\ cfgv = DefaultCfg /\ c # DefaultCfg
     /\ c.spc \in {"normal", "wide", "tight"} /\ c.eol \in {"lf", "lfnt", "crlf"}
     /\ c.gmode \in {"default", "empty", "none"} /\ c.ctoks \in {"default", "custom"}
-    /\ c.msfk \in BOOLEAN /\ c.dq \in BOOLEAN
+    /\ c.msfk \in BOOLEAN /\ c.dq \in BOOLEAN /\ c.chk \in {"checks", "dontcheck"}
     /\ (c.msfk => allowed.given)
     /\ cfgv' = c
     /\ UNCHANGED <<doc, line, toks, den, lines, side, nside, ninact, stage, fault, allowed, arrow, klass, ncom, printed, reparsed, sl>>
@@ -281,7 +286,7 @@ Finish ==
 (* ill-formed texts: expected observation "raises" *)
 \* a species key that is not in the given allowed-key list (active or parenthesised term)
 UnknownKey(s, form, c, key) ==
-    /\ InStoich /\ s = side /\ fault = "none" /\ allowed.given /\ key.t \notin allowed.keys /\ ~cfgv.msfk
+    /\ InStoich /\ s = side /\ fault \in {"none", "unknownkey"} /\ allowed.given /\ key.t \notin allowed.keys /\ ~cfgv.msfk
     /\ IF form = "inact" THEN IsCoef(c) /\ InactEffect(s, c, key)
        ELSE FormOK(form, c) /\ TermEffect(s, form, c, key) /\ UNCHANGED ninact
     /\ fault' = "unknownkey"
@@ -342,19 +347,21 @@ PrintSide(m, s) ==
     [i \in 1..Len(ks) |-> [k |-> "term", side |-> s, form |-> IF m[ks[i]] = QOne THEN "bare" ELSE "n",
                            coef |-> PCoef(m[ks[i]]), key |-> Key(ks[i], "")]]
 \* a number is printed to three significant digits, a quoted name as it is
-PrintedParam(p) == IF p.some /\ p.kind = "num" THEN SomeParam(RoundSig(p.v, 3)) ELSE p
+PrintedParam(p, nd) == IF p.some /\ p.kind = "num" THEN SomeParam(RoundSig(p.v, nd)) ELSE p
 \* printing takes two options: with_param (the parameter is printed) and with_name (the name is
 \* printed after it).  A printed name ("A -> B; 2.5; r1") is not part of the notation, so printing
 \* WITH names is a second-phase option only for texts whose reactions carry no name; a printed
 \* quantity ("1e+08 1/(s*M)") is not part of it either, so printing WITH parameters is an option
 \* only for texts without quantity parameters.
-Opt(wp, wn) == [wp |-> wp, wn |-> wn]
-AllPrintOpts == { Opt(a, b) : a \in BOOLEAN, b \in BOOLEAN }
+\* nd: significant digits of the magnitude formatter (printer setting magnitude_fmt; default 3; reactions only)
+OptN(wp, wn, nd) == [wp |-> wp, wn |-> wn, nd |-> nd]
+Opt(wp, wn) == OptN(wp, wn, 3)
+AllPrintOpts == { Opt(a, b) : a \in BOOLEAN, b \in BOOLEAN } \cup { OptN(TRUE, FALSE, 10) }
 PrintTokens(d, a, o) ==
     PrintSide(d.reac, "reac") \o <<[k |-> "arrow", a |-> a]>> \o PrintSide(d.prod, "prod")
     \o (IF o.wp /\ d.param.some
         THEN <<IF d.param.kind = "sym" THEN [k |-> "param", kind |-> "sym", name |-> d.param.name]
-               ELSE [k |-> "param", kind |-> "num", v |-> RoundSig(d.param.v, 3), style |-> "sci"]>>
+               ELSE [k |-> "param", kind |-> "num", v |-> RoundSig(d.param.v, o.nd), style |-> "sci"]>>
         ELSE <<>>)
 \* reading printed tokens: the same declarative denotation (printed coefficients are rationals);
 \* the printed text is read under the default configuration
@@ -371,7 +378,8 @@ ParsePrinted(ts) ==
 HasInactive(d) == d.ireac # EmptyM \/ d.iprod # EmptyM
 HasName == \E i \in 1..Len(lines) : lines[i].den.name # ""
 HasQty == \E i \in 1..Len(lines) : lines[i].den.param.some /\ lines[i].den.param.kind = "qty"
-Applicable(o) == (o.wn => ~HasName) /\ (o.wp => ~HasQty)
+SystemText == Len(lines) > 1 \/ ncom > 0 \/ cfgv.msfk \/ cfgv.ctoks # "default" \/ lines = <<>>
+Applicable(o) == (o.wn => ~HasName) /\ (o.wp => ~HasQty) /\ (o.nd # 3 => ~SystemText)
 OptSeq == SetSeq({ o \in PrintOpts : Applicable(o) })
 Printable == /\ fault = "none" /\ lines # <<>>
              /\ \A i \in 1..Len(lines) : ~HasInactive(lines[i].den)
@@ -412,7 +420,7 @@ GenParam == stage = "line" /\ LineComplete /\ \E p \in Params :
 GenKw == stage = "tail" /\ \E w \in Kws : Kw(w.k, w.v)
 GenComment == stage = "start" /\ \E c \in Comments : ncom < MaxComments /\ MaxLines > 1 /\ Comment(c)
 GenNewLine == Len(lines) + 1 < MaxLines /\ NewLine
-GenUnknownKey == "unknownkey" \in FaultKinds /\ InStoich /\ SideRoom /\ fault = "none" /\ allowed.given /\ \E f \in Forms \cup {"inact"}, key \in Keys :
+GenUnknownKey == "unknownkey" \in FaultKinds /\ InStoich /\ SideRoom /\ fault \in {"none", "unknownkey"} /\ allowed.given /\ \E f \in Forms \cup {"inact"}, key \in Keys :
                     \E c \in (IF f = "inact" THEN InactCoefs ELSE CoefsOf(f)) :
                         SideRoom /\ (f = "inact" => ninact < MaxInact) /\ UnknownKey(side, f, c, key)
 GenMissingArrow == "missingarrow" \in FaultKinds /\ \E k \in {"Reaction", "Equilibrium"} : MissingArrow(k)
@@ -457,10 +465,10 @@ InactiveNeverActive ==
 StoichParamEq(d1, d2) == d1.reac = d2.reac /\ d1.prod = d2.prod /\ d1.ireac = d2.ireac /\ d1.iprod = d2.iprod
                          /\ d1.param = d2.param
 \* (printed without parameter: no parameter comes back; names and references are never read back)
-RoundTrip(d, o) == [d EXCEPT !.param = IF o.wp THEN PrintedParam(d.param) ELSE NoParam, !.ref = "", !.name = ""]
+RoundTrip(d, o) == [d EXCEPT !.param = IF o.wp THEN PrintedParam(d.param, o.nd) ELSE NoParam, !.ref = "", !.name = ""]
 \* the re-read object compares equal to the original iff no parameter was lost or rounded
 \* (equality of reactions ignores names and references)
-ExactUnder(d, o) == ~d.param.some \/ (o.wp /\ (d.param.kind = "sym" \/ (d.param.kind = "num" /\ NumSig(d.param.v) <= 3)))
+ExactUnder(d, o) == ~d.param.some \/ (o.wp /\ (d.param.kind = "sym" \/ (d.param.kind = "num" /\ NumSig(d.param.v) <= o.nd)))
 ParsePrintIdentity ==
     stage = "final" =>
         /\ Len(reparsed) = Len(OptSeq) /\ Len(reparsed) >= 1
@@ -469,7 +477,7 @@ ParsePrintIdentity ==
               /\ \A i \in 1..Len(lines) :
                     /\ reparsed[j].lines[i] = RoundTrip(lines[i].den, reparsed[j].opt)
                     /\ ((lines[i].den.param.some /\ lines[i].den.param.kind = "num" /\ reparsed[j].opt.wp) =>
-                           WithinHalfUlpExact(reparsed[j].lines[i].param.v, lines[i].den.param.v, 3))
+                           WithinHalfUlpExact(reparsed[j].lines[i].param.v, lines[i].den.param.v, reparsed[j].opt.nd))
                     /\ (ExactUnder(lines[i].den, reparsed[j].opt) =>
                            StoichParamEq(reparsed[j].lines[i], lines[i].den))
 
@@ -493,11 +501,11 @@ ParamJ(p) == IF ~p.some THEN [some |-> FALSE]
 DenJ(d) == [reac |-> Pairs(d.reac), prod |-> Pairs(d.prod), ireac |-> Pairs(d.ireac), iprod |-> Pairs(d.iprod),
             param |-> ParamJ(d.param), ref |-> d.ref, name |-> d.name]
 \* the round trip may give a number back exactly or rounded to three digits (either neighbour on a tie)
-RTParamJ(p) == IF ~p.some THEN [some |-> FALSE]
+RTParamJ(p, nd) == IF ~p.some THEN [some |-> FALSE]
                ELSE IF p.kind = "sym" THEN [some |-> TRUE, kind |-> "sym", name |-> p.name]
-               ELSE [some |-> TRUE, kind |-> "num", allowed |-> SetSeq({DecJ(r) : r \in RoundSigSet(p.v, 3) \cup {p.v}})]
+               ELSE [some |-> TRUE, kind |-> "num", allowed |-> SetSeq({DecJ(r) : r \in RoundSigSet(p.v, nd) \cup {p.v}})]
 RTJ(d, o) == [reac |-> Pairs(d.reac), prod |-> Pairs(d.prod),
-              param |-> IF o.wp THEN RTParamJ(d.param) ELSE [some |-> FALSE],
+              param |-> IF o.wp THEN RTParamJ(d.param, o.nd) ELSE [some |-> FALSE],
               exact |-> ExactUnder(d, o)]
 \* constructor checks that are not properties of reading the text (documented defaults):
 \* all coefficients integral, some net effect, units of a quantity parameter consistent with the order
@@ -557,12 +565,13 @@ Class ==
     \o (IF cfgv.eol # "lf" THEN "-" \o cfgv.eol ELSE "")
     \o (IF cfgv.gmode # "default" THEN "-g" \o cfgv.gmode ELSE "")
     \o (IF cfgv.ctoks # "default" THEN "-ctoks" ELSE "")
-    \o (IF cfgv.msfk THEN "-msfk" ELSE "")
+    \o (IF cfgv.msfk THEN "-msfk" ELSE "") \o (IF cfgv.chk # "checks" THEN "-dontcheck" ELSE "")
+    \o (IF \E t \in TokSet : t.k = "param" /\ t.kind = "num" /\ t.v.digs = <<>> THEN "-zero" ELSE "")
     \o (IF HasArgs THEN "-args" ELSE "")
 CaseRec ==
     [ in |-> [slice |-> sl, doc |-> doc, klass |-> klass, system |-> IsSystem,
               allowed |-> [given |-> useAllowed, keys |-> SetSeq(allowed.keys), form |-> allowed.form],
-              cfg |-> [spc |-> cfgv.spc, eol |-> cfgv.eol, gmode |-> cfgv.gmode, ctoks |-> cfgv.ctoks,
+              cfg |-> [chk |-> cfgv.chk, spc |-> cfgv.spc, eol |-> cfgv.eol, gmode |-> cfgv.gmode, ctoks |-> cfgv.ctoks,
                        msfk |-> cfgv.msfk, dq |-> cfgv.dq, argname |-> cfgv.argname, argref |-> cfgv.argref,
                        argparam |-> IF cfgv.argparam.some THEN [some |-> TRUE, v |-> DecJ(cfgv.argparam.v)]
                                     ELSE [some |-> FALSE]]],
@@ -578,10 +587,15 @@ CaseRec ==
                 edit_copy_eq |-> TRUE, edit_str_eq |-> TRUE,
                 override |-> DecJ(OverrideParam),
                 copy_over |-> [i \in 1..Len(lines) |-> DenJ([lines[i].den EXCEPT !.param = SomeParam(OverrideParam)])],
+                \* history: the parameter is reassigned (to OverrideParam) on the read object, then printed
+                \* (with_param) and read back
+                reassign |-> [i \in 1..Len(lines) |->
+                                RTJ([lines[i].den EXCEPT !.param = SomeParam(OverrideParam)], Opt(TRUE, FALSE))],
+                twin_eq |-> TRUE, twin_indep |-> TRUE,
                 printable |-> (stage = "final"),
                 rt |-> IF stage = "final"
                        THEN [j \in 1..Len(OptSeq) |->
-                               [wp |-> OptSeq[j].wp, wn |-> OptSeq[j].wn, duplicates |-> RTDuplicates(OptSeq[j]),
+                               [wp |-> OptSeq[j].wp, wn |-> OptSeq[j].wn, nd |-> OptSeq[j].nd, duplicates |-> RTDuplicates(OptSeq[j]),
                                 lines |-> [i \in 1..Len(lines) |-> RTJ(lines[i].den, OptSeq[j])]]]
                        ELSE <<>> ] ]
 Emit == Terminal => PrintT(<<"CASE", ToJson(CaseRec)>>)
